@@ -15,10 +15,11 @@ import (
 )
 
 type c09Prog struct {
-	World   sim.Prog   `json:"world"`
-	Replica int        `json:"replica"`
-	Loads   []loadSpec `json:"loads"`
-	Merge   bool       `json:"merge"` // the chosen replica first merges the others (multi-headed state)
+	World    sim.Prog   `json:"world"`
+	Replica  int        `json:"replica"`
+	Loads    []loadSpec `json:"loads"`
+	Merge    bool       `json:"merge"`              // the chosen replica first merges the others (multi-headed state)
+	HeadPerm []int      `json:"headPerm,omitempty"` // order in which the published head list names the heads (empty: the log's own order)
 }
 
 func genLoadSpec(t *rapid.T) loadSpec {
@@ -35,6 +36,9 @@ func genC09(t *rapid.T) c09Prog {
 	w := sim.Gen(t, cfg)
 	p := c09Prog{World: w, Replica: rapid.IntRange(0, 11).Draw(t, "replica")}
 	p.Merge = rapid.Bool().Draw(t, "merge")
+	if rapid.Bool().Draw(t, "permuteHeads") {
+		p.HeadPerm = rapid.SliceOfN(rapid.IntRange(0, 7), 1, 6).Draw(t, "headPerm")
+	}
 	n := rapid.IntRange(1, 3).Draw(t, "nloads")
 	for i := 0; i < n; i++ {
 		p.Loads = append(p.Loads, genLoadSpec(t))
@@ -82,6 +86,17 @@ func runC09(tb ev.TB, p c09Prog) ev.Result {
 		tb.Fatalf("ToMultihash failed: %v", err)
 	}
 	jsonLog := r.Log.ToJSONLog()
+	if len(p.HeadPerm) > 0 {
+		jsonLog, manifest = permuteHeads(tb, w, jsonLog, p.HeadPerm)
+		hm := map[string]iface.IPFSLogEntry{}
+		for _, h := range heads {
+			hm[h.GetHash().String()] = h
+		}
+		heads = heads[:0:0]
+		for _, c := range jsonLog.Heads {
+			heads = append(heads, hm[c.String()])
+		}
+	}
 	wantHeads := w.Reg.ModelHeads(r.Model)
 	strict := w.Reg.StrictTotalOn(w.Order, r.Model)
 	wantValues := w.Reg.RefSort(w.Order, r.Model)
